@@ -37,7 +37,8 @@ for k in sorted(os.listdir(src)):
         sigs = sorted(set(re.findall(r"signature=(\S+)", out)))
         results.append({"check": c, "tier": "quick", "exit": int(m.group(1)) if m else None, "signatures": sigs[:8]})
         print(f"   {c}: exit={results[-1]['exit']} {sigs[:3]}")
-    dst = os.path.join(ROOT, "seeded", f"{prop}-{k}")
+    tag = os.environ.get("SEEDED_TAG", "")  # e.g. "r2-" for the second round
+    dst = os.path.join(ROOT, "seeded", f"{prop}-{tag}{k}")
     os.makedirs(dst, exist_ok=True)
     shutil.copy(os.path.join(d, "patch.diff"), os.path.join(dst, "patch.diff"))
     for f in os.listdir(d):
@@ -49,7 +50,7 @@ for k in sorted(os.listdir(src)):
     if m:
         needs = m.group(0)[:900]
     meta = {
-        "id": f"{prop}-{k}",
+        "id": f"{prop}-{os.environ.get('SEEDED_TAG', '')}{k}",
         "breaks_property": prop,
         "source": "independent sub-agent that was given only the property text and a scratch worktree (nothing from /verif)",
         "what_it_needs_to_manifest": needs.strip() or "see README.md",
